@@ -20,7 +20,9 @@
     with crypto/sha256 and its own encoder.
 
     Unlike C01's symbolic hash (constructors HLeaf / HInner), this does NOT
-    separate leaf digests from inner digests — the Go code does not either.
+    separate leaf digests from inner digests by construction.  The Go verifier
+    separates them by the height field: a leaf is hashed with height 0, and
+    Proof.Verify rejects every supplied node whose height is < 1.
 
     With EnableMavlPrefix the hash stored for a non-root node is
     [prefix ++ digest] (prefix = "_mlb-%010d-" / "_mh-%010d-" of the block height at
@@ -72,15 +74,30 @@ Section WithHash.
     | _ :: _ => inner_hash (pn_left b) child (pn_height b) (pn_size b)
     end.
 
+  (** the digests along a supplied path, without any test on the nodes (used by
+      the statements and by the table check of Check.v; not a Go function) *)
   Definition chain (start : bytes) (pi : list pnode) : bytes :=
     fold_left inner_proof_hash pi start.
+
+  (** The loop of Proof.Verify (proof.go, repaired in chain33 commit c3a108e):
+      [for _, branch := range proof.InnerNodes { if branch.Height < 1 { return false };
+       hash = InnerNodeProofHash(hash, branch) }].  [None] = the early [return false]. *)
+  Fixpoint chain_chk (cur : bytes) (pi : list pnode) : option bytes :=
+    match pi with
+    | [] => Some cur
+    | b :: tl =>
+        if pn_height b <? 1 then None else chain_chk (inner_proof_hash cur b) tl
+    end.
 
   (** Proof.Verify(key, value, root) *)
   Definition verify (p : proof) (k v root : bytes) : bool :=
     if negb (beq (pf_root p) root) then false else
     let lh := leaf_hash k v in
     if negb (beq lh (trim32 (pf_leaf p))) then false else
-    beq (pf_root p) (chain lh (pf_inner p)).
+    match chain_chk lh (pf_inner p) with
+    | None => false
+    | Some h => beq (pf_root p) h
+    end.
 
   (** ReadProof(roothash, leafhash, data) after decoding [data] to [pi], and
       VerifyKVPairProof(db, roothash, {k, v}, data). *)
